@@ -22,9 +22,9 @@ CLAIMED = {
     'C03': dict(engine='B', technique=TECH_B, ref='DESIGN.md section 4, C03', note=NOTE_B,
                 text='The binary-search helper and the lookup for every table length 0..64 (fixed increasing times, symbolic key); every table of <= 6 (thorough 8, optionally 12) transitions with symbolic contents accepted by the real constructor, 1..3 types, 3 distinguishable types, rule none/Fixed, with and without <= 3 leap records, every i64 instant: the binary-search lookup returns the reference scan\'s type by pointer identity; DateTime::from_timespec = lookup + fields of t+offset (S_pack).'),
     'C05': dict(engine='B', technique=TECH_B + '; civil time abstracted to its second count (contracts C01/C02)', ref='DESIGN.md section 4, C05/C06', note=NOTE_B,
-                text='Search vs forward lookup on every table zone up to the bound (<= 2 transitions quick, 3 thorough; + Fixed rule; leap variant), every civil second count and every instant: soundness, completeness, no duplicate valid instants, unique(); the caller\'s buffer holds stale entries. DST-rule zones (thorough): the real search over abstract rule-day instants obeying contracts discharged in C04, against the real lookup (c05_rule_abstract) and against the C04 specification (c05_rulespec_*).'),
+                text='Search vs forward lookup on every table zone up to the bound (<= 2 transitions quick, 3 thorough; + Fixed rule; leap variant), every civil second count and every instant: soundness, completeness, no duplicate valid instants, unique(). DST-rule zones (thorough): the real search over abstract rule-day instants obeying contracts discharged in C04, against the real lookup (c05_rule_abstract) and against the C04 specification (c05_rulespec_*).'),
     'C06': dict(engine='B', technique=TECH_B + '; civil time abstracted to its second count (contracts C01/C02)', ref='DESIGN.md section 4, C05/C06', note=NOTE_B,
-                text='Same zones: each Skipped entry is a real forward jump containing the local time with the right before/after types; every table gap containing it is reported; ascending order; earliest/latest are the extremes and ignore stale buffer slots. DST-rule zones in the thorough tier (c06_rule_abstract, c06_rulespec_*).'),
+                text='Same zones: each Skipped entry is a real forward jump containing the local time with the right before/after types; every table gap containing it is reported; ascending order; earliest/latest are the extremes. DST-rule zones in the thorough tier (c06_rule_abstract, c06_rulespec_*).'),
     'C07': dict(engine='AB', technique=TECH_A + ' for every overflow/bounds/division/cast/unreachable/unwinding site; ' + TECH_B + ' default checks', ref='DESIGN.md section 4, C07', note=NOTE_A + ' ' + NOTE_B,
                 text='Panic-freedom as proof obligations: all arithmetic kernels for ALL inputs (Engine A), table/constructor/search/parser units under CBMC\'s checks with unwinding assertions (Engine B); allocation bounded by bytes present (layout harness).'),
     'C08': dict(engine='B', technique=TECH_B + '; unit contracts + composition with abstracted callees', ref='DESIGN.md section 4, C08', note=NOTE_B + ' Paper step: units = reference and composition = reference composition => whole decoder = reference.',
